@@ -28,7 +28,8 @@ ASSUMPTIONS = [
     "a generated logging section keeps a file handler on the runtime log (a bare dictConfig would remove the --log-target handler)",
 ]
 BOUND = 20
-SERVICES = {"FxSvcAsyncio": "asyncio", "FxSvcTrio": "trio", "FxSvcThread": "threading", "FxSvcCtrl": "trio"}
+SERVICES = {"FxSvcAsyncio": "asyncio", "FxSvcTrio": "trio", "FxSvcThread": "threading", "FxSvcCtrl": "trio", "FxSvcParked": "asyncio", "FxGc": "threading"}
+SILENT = {"FxSvcParked"}  # services that do not beat: judged by run-start / cancelled / not ending early
 SHIPPED_MIDDLE = [("Buffer", "cobald.decorator.buffer.Buffer", {"window": 5}), ("Standardiser", "cobald.decorator.standardiser.Standardiser", {"minimum": 0}),
                   ("Logger", "cobald.decorator.logger.Logger", {"name": "verif"}), ("Limiter", "cobald.decorator.limiter.Limiter", {"maximum": 10})]
 SHIPPED_HEAD = [("LinearController", "cobald.controller.linear.LinearController", {"interval": 1}),
@@ -59,7 +60,7 @@ def pipeline(draw, prefix):
                 tag, path, kw = draw(st.sampled_from(SHIPPED_MIDDLE))
                 elems.append({"cls": tag, "path": path, "name": None, "form": form, "kw": dict(kw)})
             elif kind == "svc":
-                cls = draw(st.sampled_from(["FxSvcAsyncio", "FxSvcTrio", "FxSvcThread"]))
+                cls = draw(st.sampled_from(["FxSvcAsyncio", "FxSvcTrio", "FxSvcThread", "FxSvcAsyncio", "FxSvcTrio", "FxSvcThread", "FxSvcParked", "FxGc"]))
                 elems.append({"cls": cls, "name": name, "form": form, "kw": {"name": name}})
             else:
                 elems.append({"cls": "FxDeco", "name": name, "form": form, "kw": {"name": name}})
@@ -75,6 +76,7 @@ def case(draw):
          "beats": draw(st.sampled_from([2, 5])), "flow": draw(st.booleans())}
     services = [e for p in pipes for e in p if e["cls"] in SERVICES]
     if kind == "valid-fail":
+        services = [e for e in services if e["cls"] not in ("FxGc", "FxSvcParked")]  # these never fail on request
         if not services:
             c["kind"] = kind = "valid-sigint"
         else:
@@ -85,6 +87,10 @@ def case(draw):
     if kind == "invalid":
         options = [i for i in INVALID if (lang == "yaml") == (not i.startswith("py-"))]
         c["invalid"] = draw(st.sampled_from(options))
+    if lang == "py" and kind == "valid-sigint" and draw(st.integers(0, 3)) == 0:
+        c["many"] = draw(st.sampled_from([300, 2000, 6000]))  # a configuration module that builds very many pipelines
+    if lang == "py" and draw(st.booleans()):
+        c["switchinterval"] = draw(st.sampled_from([1e-4, 1e-5]))
     return c
 
 
@@ -131,6 +137,9 @@ def py_text(c):
              "from cobald.controller.relative_supply import RelativeSupplyController", "from cobald.decorator.buffer import Buffer",
              "from cobald.decorator.standardiser import Standardiser", "from cobald.decorator.logger import Logger",
              "from cobald.decorator.limiter import Limiter", ""]
+    if c.get("switchinterval"):
+        # schedule perturbation from inside the (Python) configuration: frequent thread switches while objects are built
+        lines.insert(0, f"import sys; sys.setswitchinterval({c['switchinterval']!r})")
     if c.get("invalid") == "py-raises":
         lines.append("raise RuntimeError('configuration module fails on purpose')")
     for i, pipe in enumerate(c["pipes"]):
@@ -139,6 +148,8 @@ def py_text(c):
             args = ", ".join(f"{k}={v!r}" for k, v in e["kw"].items())
             parts.append(f"{e['cls']}({args})" if j == len(pipe) - 1 else f"{e['cls']}.s({args})")
         lines.append(f"pipeline_{i} = " + " >> ".join(parts))
+    if c.get("many"):
+        lines += ["many = []", f"for i in range({c['many']}):", "    many.append(FxSvcQuiet.s(name='q%d' % i) >> FxPool(name='qp%d' % i, quiet=True))"]
     if c.get("invalid") == "py-syntax":
         lines.append("def (:")
     return "\n".join(lines) + "\n"
@@ -167,7 +178,9 @@ def run_case(c) -> Result:
                     if e["ev"] == "beat":
                         beats[e["name"]] = max(beats.get(e["name"], 0), e["n"])
                 constructed = {e["name"] for e in ev if e["ev"] == "constructed"}
-                return all(beats.get(s["name"], 0) >= m for s in services) and all(f["name"] in constructed for f in fixtures)
+                started = {e["name"] for e in ev if e["ev"] == "run-start"}
+                return all(beats.get(s["name"], 0) >= m for s in services if s["cls"] not in SILENT) and all(s["name"] in started for s in services) \
+                    and all(f["name"] in constructed for f in fixtures) and (not c.get("many") or len(started) >= c["many"] + len(services))
 
             ok, ev = d.wait_for(up, BOUND)
             if not ok:
@@ -180,6 +193,13 @@ def run_case(c) -> Result:
                     res.expensive = True
                     res.fail("services-not-running", f"after {BOUND}s services {missing} never started / not all services beat ({desc}); events: {[(e['ev'], e['name']) for e in ev][:12]}\n{text}")
                 return res
+            if any(s["cls"] in SILENT for s in services):
+                import time as _time
+
+                _time.sleep(0.4)  # let the collector service run a few times while the silent services are parked
+                if d.proc.poll() is not None:
+                    res.fail("daemon-exited", f"valid configuration but the daemon exited by itself with status {d.proc.poll()} ({desc}); log tail: {d.read_log()[-600:]!r}")
+                    return res
             d.sigint()
             rc = d.wait_exit(BOUND)
             ev = __import__("engines.daemon_proc", fromlist=["read_events"]).read_events(d.events)
@@ -200,12 +220,23 @@ def run_case(c) -> Result:
                     res.fail("constructed-outside-loop", f"{f['cls']} {f['name']} was constructed without a running asyncio event loop (pid {cons[0]['pid']} vs {pid}) ({desc})")
                 elif not cons[0].get("main_thread") or (runtime_loops and cons[0].get("loop") not in runtime_loops):
                     res.fail("constructed-in-foreign-loop", f"{f['cls']} {f['name']} was constructed in a loop that is not the runtime's asyncio loop (main thread: {cons[0].get('main_thread')}, loop {cons[0].get('loop')} vs services' {runtime_loops}) ({desc})")
+            if c.get("many"):
+                quiet = {}
+                for e in ev:
+                    if e["ev"] == "run-start" and e["name"].startswith("q"):
+                        quiet[e["name"]] = quiet.get(e["name"], 0) + 1
+                if len(quiet) != c["many"] or any(v != 1 for v in quiet.values()):
+                    res.fail("service-start-count", f"{c['many']} silent services configured, {len(quiet)} started, {sum(1 for v in quiet.values() if v != 1)} of them more than once ({desc})")
             for s in services:
                 starts = [e for e in ev if e["ev"] == "run-start" and e["name"] == s["name"]]
                 if len(starts) != 1:
                     res.fail("service-start-count", f"service {s['cls']} {s['name']} started {len(starts)} times ({desc})")
                 beats = [e for e in ev if e["ev"] == "beat" and e["name"] == s["name"]]
-                if not beats or beats[-1]["t"] < d.t_signal - 0.5:
+                if s["cls"] in SILENT:
+                    ended = [e for e in ev if e["ev"] == "run-end" and e["name"] == s["name"] and e["t"] < d.t_signal]
+                    if ended:
+                        res.fail("service-stopped-early", f"service {s['name']} ({s['cls']}) ended {d.t_signal - ended[0]['t']:.2f}s before the signal ({desc})")
+                elif not beats or beats[-1]["t"] < d.t_signal - 0.5:
                     res.fail("service-stopped-early", f"service {s['name']} last beat {d.t_signal - (beats[-1]['t'] if beats else 0):.2f}s before the signal ({desc})")
                 if SERVICES[s["cls"]] != "threading" and not any(e["ev"] == "cancelled" and e["name"] == s["name"] for e in ev):
                     res.fail("service-not-cancelled", f"{SERVICES[s['cls']]} service {s['name']} was not cancelled on SIGINT ({desc})")
